@@ -7,7 +7,7 @@ from contracts.c import ints
 from specs import ints as S
 
 PID = 'C02'
-FUNCS = ['read_raw_signed_data', 'read_raw_unsigned_data', 'write_raw_integer_data',
+FUNCS = ["read_raw_signed_data", "read_raw_unsigned_data", "write_raw_integer_data", "_my_PyLong_AsLongLong", "_my_PyLong_AsUnsignedLongLong", "convert_to_object", "convert_from_object",
          'convert_to_object_bitfield', 'convert_from_object_bitfield', 'convert_field_from_object']
 
 BV = z3.BitVecVal
